@@ -28,9 +28,12 @@ VERSIONS = {
 }
 
 
-def render(kind, version, name=None, method_of=None, body_extra=""):
-    """Canonical hand-written source of ``version`` as ``kind``.  ``method_of``: wrap a function in that class."""
+def render(kind, version, name=None, method_of=None, body_extra="", reverse=False):
+    """Canonical hand-written source of ``version`` as ``kind``.  ``method_of``: wrap a function in that class.
+    ``reverse``: same parameters in reversed order (a target that disagrees with the truth in order only)."""
     v = VERSIONS[version]
+    if reverse:
+        v = dict(v, params=list(reversed(v["params"])))
     name = name or DEF_NAMES[kind]
     if kind == "class":
         lines = ["class %s(object):" % name, '    """', "    %s" % v["doc"], ""]
@@ -75,6 +78,7 @@ def render(kind, version, name=None, method_of=None, body_extra=""):
 
 
 NODEF_TEXT = "import os\n\nUNRELATED = 1\n"
+HELPER_TEXT = "def helper(a, z=3):\n    return a\n"
 
 
 def prestate_text(kind, state, truth_version, name=None, method_of=None):
@@ -90,8 +94,18 @@ def prestate_text(kind, state, truth_version, name=None, method_of=None):
         return render(kind, other, name, method_of)
     if state == "agree":
         return render(kind, truth_version, name, method_of)
+    if state == "reordered":
+        txt = render(kind, truth_version, name, method_of, reverse=True)
+        try:
+            ast.parse(txt)
+        except SyntaxError:  # reversed order would put a parameter without default after one with a default
+            txt = render(kind, truth_version, name, method_of)
+        return txt
     if state in VERSIONS:
         return render(kind, state, name, method_of)
+    if state.startswith("helper+") and state[len("helper+"):] in VERSIONS:
+        # an unrelated function precedes the definition
+        return HELPER_TEXT + "\n\n" + render(kind, state[len("helper+"):], name, method_of)
     raise ValueError(state)
 
 
@@ -307,12 +321,17 @@ class Project(object):
             with open(os.path.join(self.root, fn), "wb") as f:
                 f.write(b)
 
+    extra = None  # optional {kind: [extra file names]}: further targets of that kind in the same invocation
+
+    def extra_paths(self, k):
+        return [os.path.join(self.root, fn) for fn in (self.extra or {}).get(k, [])]
+
     def namespace(self, truth, kinds):
         ns = {"truth": truth}
         for k in KINDS:
             plural = {"class": "classes", "function": "functions", "argparse_function": "argparse_functions"}[k]
             names = {"class": "class_names", "function": "function_names", "argparse_function": "argparse_function_names"}[k]
-            ns[plural] = [self.path(k)] if k in kinds else None
+            ns[plural] = ([self.path(k)] + self.extra_paths(k)) if k in kinds else None
             ns[names] = [self.name_of(k)] if k in kinds else None
         return Namespace(**ns)
 
@@ -322,6 +341,8 @@ class Project(object):
         for k in KINDS:
             if k in kinds:
                 argv += [flag[k], self.path(k), flag[k] + "-name", self.name_of(k)]
+                for p in self.extra_paths(k):
+                    argv += [flag[k], p]
         return argv
 
     def sync(self, truth, kinds, via="api"):
